@@ -1531,7 +1531,10 @@ class LuaFormatterWriter(LuaASTEchoWriter):
 
         # Remove excess trailing whitespace at end of file.
         if self._pos == len(self._tokens):
-            spaces = re.sub(br'[ \n]+$', b'\n', spaces)
+            spaces = re.sub(
+                br'[ \n]+\Z',
+                lambda m: b'\n' if b'\n' in m.group(0) else b'',
+                spaces)
 
         # TODO: same-line spacing patterns:
         # - one space before and after binop
